@@ -14,6 +14,7 @@ import (
 	"github.com/akramarenkov/cqos/v2/priority"
 	"github.com/akramarenkov/cqos/v2/priority/divider"
 	"github.com/akramarenkov/cqos/v2/priority/simple"
+	"github.com/akramarenkov/cqos/v2/priority/utils"
 )
 
 // Free-running stress of the documented concurrent use, meant for the race detector (C20) -- real goroutines, real time.
@@ -259,5 +260,78 @@ func TestStressLimit(t *testing.T) {
 			t.Fatalf("got %d, want %d", v, n)
 		}
 		n++
+	}
+}
+
+// The pure functions (rate conversion, dividers, handler-quantity helpers) called from many goroutines at once, each on its own
+// arguments: no shared state may exist behind them (C20), and every concurrent result equals the sequential one.
+func TestStressPure(t *testing.T) {
+	type rateCase struct {
+		rate limit.Rate
+		min  time.Duration
+	}
+	for round := 0; round < stressRounds(); round++ {
+		rng := rand.New(rand.NewSource(stressSeed() + int64(round)))
+		cases := make([]rateCase, 64)
+		for i := range cases {
+			q := uint64(1 + rng.Int63n(1<<uint(1+rng.Intn(40))))
+			iv := time.Duration(1 + rng.Int63n(1<<uint(1+rng.Intn(40))))
+			cases[i] = rateCase{limit.Rate{Interval: iv, Quantity: q}, time.Duration(rng.Int63n(1 << uint(1+rng.Intn(30))))}
+			if i%2 == 0 { // the slow (big-integer) path: Interval/Quantity below the minimum
+				cases[i] = rateCase{limit.Rate{Interval: time.Second, Quantity: uint64(200 + rng.Intn(1<<20))}, limit.OptimizationInterval}
+			}
+		}
+		type rateRes struct {
+			r   limit.Rate
+			err error
+		}
+		seq := make([]rateRes, len(cases))
+		for i, c := range cases {
+			r, err := c.rate.Recalculate(c.min)
+			seq[i] = rateRes{r, err}
+		}
+		priorities := []uint{70, 20, 10, 5, 1}
+		seqFair, seqRate := map[uint]uint{}, map[uint]uint{}
+		divider.Fair(priorities, 1000+uint(round), seqFair)
+		divider.Rate(priorities, 1000+uint(round), seqRate)
+		seqNonFatal := utils.IsNonFatalConfig(priorities, divider.Rate, 200)
+		seqMin := utils.PickUpMinNonFatalQuantity(priorities, divider.Rate, 300)
+		var wg sync.WaitGroup
+		for g := 0; g < 16; g++ {
+			wg.Add(1)
+			go func(g int) {
+				defer wg.Done()
+				for rep := 0; rep < 20; rep++ {
+					for i, c := range cases {
+						r, err := c.rate.Recalculate(c.min)
+						if r != seq[i].r || (err == nil) != (seq[i].err == nil) {
+							t.Errorf("concurrent Recalculate(%v, %v) = %v, %v; sequential %v, %v", c.rate, c.min, r, err, seq[i].r, seq[i].err)
+							return
+						}
+						if _, err := c.rate.Optimize(); false && err != nil {
+							return
+						}
+						_, _ = c.rate.Flatten()
+					}
+					f, r := map[uint]uint{}, map[uint]uint{}
+					divider.Fair(priorities, 1000+uint(round), f)
+					divider.Rate(priorities, 1000+uint(round), r)
+					for _, p := range priorities {
+						if f[p] != seqFair[p] || r[p] != seqRate[p] {
+							t.Errorf("concurrent divider result differs from the sequential one")
+							return
+						}
+					}
+					if g%4 == 0 && rep%5 == 0 {
+						if utils.IsNonFatalConfig(priorities, divider.Rate, 200) != seqNonFatal || utils.PickUpMinNonFatalQuantity(priorities, divider.Rate, 300) != seqMin {
+							t.Errorf("concurrent helper result differs from the sequential one")
+							return
+						}
+						_ = utils.IsSuitableConfig(priorities, divider.Fair, 200, 10)
+					}
+				}
+			}(g)
+		}
+		wg.Wait()
 	}
 }
